@@ -126,6 +126,10 @@ WorldDiff(e) ==
    IN  {c \in {"bal"}  : Proj(e.fin, "bal", S) # e.exp.bal}   \cup {c \in {"sto"} : Proj(e.fin, "sto", S) # e.exp.sto} \cup
        {c \in {"code"} : Proj(e.fin, "code", S) # e.exp.code} \cup {c \in {"ex"}  : Proj(e.fin, "ex", S) # e.exp.ex}   \cup
        {c \in {"logs"} : e.fin.logs # e.exp.logs} \cup {c \in {"frames"} : Obs(e) # Pred(e)} \cup
+       \* the recursion of DEEP ("deep": call sites seen inside the recursive helper, deepest executing frame): no frame
+       \* runs below depth 1025, and when the model says the limit was reached and recorded, it was reached exactly there
+       {c \in {"depth"} : "deep" \in DOMAIN e /\ (e.deep.maxdepth > 1025 \/
+                              ("R" \in S /\ e.exp.sto["R"][1] = 1 /\ e.deep.maxdepth # 1025))} \cup
        {c \in {"others"} : \E a \in O : e.fin.bal[a] # e.calls[1].pre.bal[a] \/ e.fin.sto[a] # e.calls[1].pre.sto[a]
                                         \/ e.fin.code[a] # e.calls[1].pre.code[a]}
 WorldJudged(e) == ~IsSweep(e) \/ Obs(e) = Pred(e)
